@@ -224,9 +224,24 @@ def dirty_bytes(kind, fill, approx):
     return bytes.fromhex(fill) * 5
 
 
-def place_dirty(world, env, artefacts):
+def place_dirty(world, env, artefacts, sources=None, entry=None):
     """Pre-existing artefacts: what an earlier, unrelated compile left behind."""
     if not env.get("dirty"):
+        return
+    if env["dirty"]["kind"] == "older_revision":
+        # the artefacts of an earlier revision of the same project: every integer literal was one higher then
+        if not sources or not entry:
+            return
+        old = {k: re.sub(r"(?<![\w.#\"])(\d+)(?![\w.\"])", lambda m: str(int(m.group(1)) + 1), v) if k.endswith(".ms") else v for k, v in sources.items()}
+        tmp = core.fresh_world(old, sub="rev")
+        c = core.run_cmd(os.path.join(tmp, os.path.dirname(entry)), ["compile", os.path.basename(entry), "--quick"], plan={"seed": "00" * 16, "rules": []})
+        if c["rc"] != 0:
+            return
+        for rel in artefacts:
+            src = os.path.join(tmp, rel)
+            if os.path.exists(src):
+                os.makedirs(os.path.dirname(os.path.join(world, rel)), exist_ok=True)
+                shutil.copyfile(src, os.path.join(world, rel))
         return
     for rel in artefacts:
         p = os.path.join(world, rel)
@@ -250,9 +265,7 @@ def leg_run(files, entry, env, idx, dump=False):
     p = core.run_cmd(cwd, ["run", ent, "-q"] + flags, plan=env["plans"][idx], gc=env["gc"][idx], dump=dump)
     if "--profile" in flags:
         # the profile report follows the program's output after one empty line; it is not program output
-        cut = p["out"].rfind(b"\nRuntime Profile:")
-        if cut >= 0:
-            p["out"] = p["out"][:cut]
+        p["out"] = core.strip_profile(p["out"])
     return [p]
 
 
